@@ -318,3 +318,51 @@ CHECKS["C07"] = dict(
 
 NOT_YET = "check not built yet in this build round (specified in DESIGN.md §4; will be claimed when its TLA+ module and binding exist)"
 NOT_APPLICABLE = {}
+
+
+# ---- coverage added in build round 2 (after the second set of seeded changes); appended to the texts above
+ROUND2 = {
+    "C01": "Round 2: a second world (the same query object re-evaluated after an in-place edit of the data), a selected attribute "
+           "expression, a partially ordered family and quantifier conditions at depth 1 were added to EQLCore.tla.",
+    "C02": "Round 2: the second world / re-evaluation and the poset family apply to the bags as well.",
+    "C03": "Round 2: every family also returns the results of fresh identical queries evaluated alone (metamorphic alone-oracle), "
+           "bare-variable queries and rule-query families.",
+    "C04": "Round 2: ObjGraph.tla has a normally mapped subclass N of the alternatively mapped class M and function-valued fields.",
+    "C05": "Round 2: as C04 (class N, row counts of table VN).",
+    "C06": "Round 2: the generated module must not import the synthesised modules of other models.",
+    "C07": "Round 2: string membership / prefix conditions (strings family) next to the sql and chains families.",
+    "C08": "Round 2: the base condition is a truth dimension of RuleTree.tla (one element per truth vector of the branch conditions "
+           "AND the base condition, base-failing bindings enumerated before and after satisfying ones), and every program is also "
+           "written in two steps (branches in a first `with query:` block, base conclusion in a second one).",
+    "C09": "Round 2: NestedThe.tla - a the(...) nested in and correlated with an enclosing query: every sequence of per-binding "
+           "solution counts 0..2 over up to 4 bindings, MemoFirst switch refuted, replayed in two element orders.",
+    "C10": "Round 2: match patterns whose keyword value is a variable over a lazily produced domain (build phase must pull nothing), "
+           "and for_all(y, c) over a lazily produced y: Laziness.tla NeedFA - the universal domain may be consumed only up to the "
+           "first counter-example per tried binding (or, y outer, until no candidate is left).",
+    "C11": "Round 2: select(Drawer)(...) directly on the collection attribute (SelDrawer) and the same world with falsy domain "
+           "elements (objects whose __len__ is 0).",
+    "C12": "Round 2: candidate values 0..2 (0 is falsy), the call as a later condition (every variable already bound), and concrete "
+           "calls of positional-only and var-positional signatures (275 shapes).",
+    "C13": "Round 2: CreateFrom action - instances that come into being by copy / deepcopy / dataclasses.replace / "
+           "to_dao().from_dao() of a live instance (UnregisteredModes switch refuted) - and histories replayed with instances that "
+           "are falsy objects while alive.",
+    "C14": "Round 2: every fifth history is replayed again with falsy instances; the repository's own ontology / symbol-graph / "
+           "rule tests are run with the H1 hooks on and their registry traces validated against SymbolGraph_Trace.tla.",
+    "C15": "Round 2: third schema `geo` - a transitive property without inverse, a sub-property of it, instances of a subclass of the "
+           "declaring class.",
+    "C16": "Round 2: assignment of a lazy view of the field's own contents (reversed / generator / chain), dataclasses.replace of the "
+           "owner as first assignment of another object's managed container (AliasedFirstAssignment refuted), and element churn "
+           "(short-lived elements on a long-lived owner; StaleReportedCache refuted; address reuse counted in the evidence).",
+    "C17": "Round 2: the per-class query API of a diagram and of the view derived from it, asked in either order, must agree with "
+           "each diagram's own edge list; a third module style without the __future__ import (string forward references nested in "
+           "wrappers).",
+    "C18": "Round 2: a SubclassJSONSerializer subclass that is itself iterable is one of the object classes.",
+    "C19": "Round 2: 25th tag class - a class that is not deserialisable but derives from a registered type (MroRegistryLookup "
+           "switch refuted).",
+    "C20": "Round 2: loop bodies from the query-free relate histories; the number of entries in the builtin containers reachable from "
+           "the SymbolGraph singleton must not grow; the same create/assert/discard loop over Ontology.tla behaviours (roles, role "
+           "takers, inverse / transitive / super-property inference) in three schemas.",
+}
+for _k, _v in ROUND2.items():
+    if _k in CHECKS:
+        CHECKS[_k]["text"] += " " + _v
